@@ -19,6 +19,8 @@ Qed.
 Lemma cl_is_running : forall st, g_is_running st = is_running st. Proof. by intros []. Qed.
 Lemma cl_requeue_at_front : fact_requeue_at_front = true. Proof. reflexivity. Qed.
 Lemma cl_dequeue_pops_front : fact_dequeue_pops_front = true. Proof. reflexivity. Qed.
+Lemma cl_drain_requeues_via_requeue : fact_drain_requeues_via_requeue = true. Proof. reflexivity. Qed.
+Lemma cl_run_one_job_now_keeps_job_in_hand : fact_run_one_job_now_keeps_job_in_hand = true. Proof. reflexivity. Qed.
 Lemma cl_claim_lock_order : fact_claim_locks_schedule_then_core = true. Proof. reflexivity. Qed.
 
 Theorem C01_now : forall nq mx scripts tr s a b q na nb qq,
